@@ -148,7 +148,7 @@ class Prop(PropBase):
     id = 'C15'
     coq_imports = ['PV.Model.FsRewrite']
     props_file = 'theories/Props/C15.v'
-    n_cases = {'quick': 4000, 'thorough': 14000}
+    n_cases = {'quick': 4500, 'thorough': 16000}
     parallel = True
     rule = ('scenarios = 5 steps (fileformat, filereplace, fileformatjson/yaml/toml) x payloads of '
             '0-4 lines/nodes x {single file, list (sub-directory, missing entry, duplicate), glob '
@@ -174,6 +174,21 @@ class Prop(PropBase):
         'Links ARE generated: out as a symbolic link to in, a hard link to in, a ../ or ./ spelling '
         'of in (all must be edited in place) and a symbolic link to another file (must not). '
         'in paths that are themselves links, and links to directories, are not generated',
+        'Tie B (tools/py2coq_c15.py -> Gen/GenC15.v, regenerated from pypyr/utils/filesystem.py on '
+        'every run): GENERATED = is_same_file as a boolean function; move_file, remove_temp_file, '
+        'move_temp_file, StreamRewriter.in_to_out, ObjectRewriter.in_to_out as terms of the '
+        'statement language of Model/FsRewrite.v (with / try-except / raise / return / flags / '
+        'primitives), FileRewriter.files_in_to_out as a term of its loop language. PROVED: the '
+        'same-file test is the model routing decision; each generated term IS the structured '
+        'program written in Proofs/GenC15Proofs.v (syntactic equality - any change of order, '
+        'nesting, handler, dir=/delete= argument, routing test breaks the build); move_temp_file '
+        'run by the statement semantics equals the op model rename step + handler for every fault '
+        'assignment. NOT PROVED (correspondence run only): that the whole structured methods under '
+        'arbitrary faults equal the flat op lists + unwind of the op model. The translator DROPS '
+        '(assumed effect-free): docstrings, logger calls, if/for blocks containing only logging, '
+        'read_mode/write_mode locals, encoding=/mode= arguments, counters read only by logging, '
+        '.mkdir(parents=True, exist_ok=True) on the out directory; names are bound by role '
+        '(parameter position, what a with binds), fail-closed outside that subset',
         'fault injection wraps open / NamedTemporaryFile / handle.write / handle.close / os.replace / '
         'os.remove inside pypyr.utils.filesystem; handle.writelines is replaced by the equivalent '
         'loop over write (what _io._IOBase.writelines does); a failing injected primitive has no effect',
